@@ -139,6 +139,9 @@ def run(facts, rep):
                     return solved(t)
                 if last in ('id',) or (last.startswith('{closure') and selector_kind(t) == 'id'):
                     return ONE
+                if last == 'zero' and t[1].endswith('SpMat::<R>::zero'):
+                    used_zero.append(s)
+                    return ZERO
             bk = block_of(t)
             if bk:
                 return W(bk)
@@ -183,8 +186,22 @@ def run(facts, rep):
         # the two transforms: Trans::new(forward, backward)
         F = {}
         Bk = {}
+        variants = {'src': [], 'tgt': []}
+        used_zero = []
+
+        def assumed_zero(p):
+            """blocks the path has tested with is_zero() and found zero: the identities are then checked modulo block = 0"""
+            z = set()
+            for b_ in p.branches():
+                t_ = strip(b_.term)
+                if t_[0] == 'call' and t_[1].split('::')[-1] == 'is_zero' and len(t_[2]) == 1 and b_.value != 0:
+                    z.add(block_of(t_[2][0]))
+            if 'a' in z:
+                raise Bad('a path assumes the triangular block a to be zero')
+            return frozenset(z)
 
         def handle(p, f, bw):
+            del used_zero[:]
             # forward
             fk = selector_kind(f)
             if fk == 'proj':
@@ -205,7 +222,12 @@ def run(facts, rep):
                 back = ('col', [mat(bs[2][0]), ONE])
             else:
                 raise Bad('unrecognised backward map ' + sk(bw)[:80])
-            side = 'src' if fwd[1][0] == ZERO else 'tgt'
+            side = 'src' if fk == 'proj' else 'tgt'
+            Z = assumed_zero(p)
+            if used_zero and not Z:
+                raise Bad('a block is replaced by %s on a path without an is_zero() test of a block in the same body' % used_zero[0][:60])
+            if not any(v == (Z, fwd[1], back[1]) for v in variants[side]):
+                variants[side].append((Z, fwd[1], back[1]))
             F[side], Bk[side] = fwd[1], back[1]
         for k, b in closures.items():
             for p in SymEx(b).run():
@@ -268,6 +290,40 @@ def run(facts, rep):
         rep.ok('E17.S1-schur-complement', inst, nshow(S))
     else:
         rep.violation('E17.S1-schur-complement', inst, 'compute_schur forms %s, expected %s' % (nshow(S), nshow(want_s)), where=facts.bodies[CS].where())
+    # every combination of the guarded variants of the two transforms, each modulo the blocks its path found zero
+    combos = [(vs, vt) for vs in variants['src'] for vt in variants['tgt']]
+    worst = None
+    for vs, vt in combos:
+        res = _identities(rep, root, M, want_s, {'src': vs[1], 'tgt': vt[1]}, {'src': vs[2], 'tgt': vt[2]}, vs[0] | vt[0], dry=True)
+        if res and worst is None:
+            worst = (vs, vt)
+    vs, vt = worst or combos[0]
+    _identities(rep, root, M, want_s, {'src': vs[1], 'tgt': vt[1]}, {'src': vs[2], 'tgt': vt[2]}, vs[0] | vt[0], dry=False, nvar=len(combos))
+    check_dimensions(facts, rep, root, kinds)
+
+
+def _kill(p, Z):
+    return {w: c for w, c in p.items() if not any(x in Z for x in w)}
+
+
+def _identities(rep, root, M, want_s, F, Bk, Z, dry, nvar=1):
+    """S2-S4 for one pair of transform variants, modulo block = 0 for the blocks in Z; dry: only count the failures"""
+    bad = []
+    K = lambda p: _kill(p, Z)
+    M = [[K(x) for x in r] for r in M]
+    want_s = K(want_s)
+    F = {k: [K(x) for x in v] for k, v in F.items()}
+    Bk = {k: [K(x) for x in v] for k, v in Bk.items()}
+    under = (' on the path where %s found zero' % ', '.join('%s.is_zero()' % z for z in sorted(Z))) if Z else ''
+
+    class _R:
+        def ok(self, *a):
+            pass
+
+        def violation(self, *a, **k):
+            bad.append(a[0])
+    if dry:
+        rep = _R()
 
     def row_times_M(row):
         return [nadd(nmul(row[0], M[0][j]), nmul(row[1], M[1][j])) for j in range(2)]
@@ -280,7 +336,7 @@ def run(facts, rep):
         rep.ok('E17.S2-transfer-maps', inst, 'F_tgt = [%s, %s], B_src = [%s; %s]' % (nshow(F['tgt'][0]), nshow(F['tgt'][1]), nshow(Bk['src'][0]), nshow(Bk['src'][1])))
     else:
         rep.violation('E17.S2-transfer-maps', inst,
-                      'with F_tgt = [%s, %s] and B_src = [%s; %s] the product F_tgt*M*B_src is %s, not the Schur complement %s' %
+                      ('with F_tgt = [%s, %s] and B_src = [%s; %s]' + under + ' the product F_tgt*M*B_src is %s, not the Schur complement %s') %
                       (nshow(F['tgt'][0]), nshow(F['tgt'][1]), nshow(Bk['src'][0]), nshow(Bk['src'][1]), nshow(fmb), nshow(want_s)), where=root.where())
     # chain-map conditions: M * B_src = B_tgt * s   and   F_tgt * M = s * F_src
     mb = [nadd(nmul(M[i][0], Bk['src'][0]), nmul(M[i][1], Bk['src'][1])) for i in range(2)]
@@ -292,7 +348,7 @@ def run(facts, rep):
         rep.ok('E17.S4-chain-maps', inst, 'M*B_src = [0; s], F_tgt*M = [0, s]')
     else:
         rep.violation('E17.S4-chain-maps', inst,
-                      'the transfer maps are not chain maps: M*B_src = [%s; %s] (want [%s; %s]), F_tgt*M = [%s, %s] (want [%s, %s])' %
+                      ('the transfer maps are not chain maps' + under + ': M*B_src = [%s; %s] (want [%s; %s]), F_tgt*M = [%s, %s] (want [%s, %s])') %
                       (nshow(mb[0]), nshow(mb[1]), nshow(bs_[0]), nshow(bs_[1]), nshow(fm[0]), nshow(fm[1]), nshow(sf[0]), nshow(sf[1])), where=root.where())
     for side in ('src', 'tgt'):
         fb = row_times_col(F[side], Bk[side])
@@ -301,3 +357,153 @@ def run(facts, rep):
             rep.ok('E17.S3-retraction', inst, 'F = [%s, %s], B = [%s; %s]' % (nshow(F[side][0]), nshow(F[side][1]), nshow(Bk[side][0]), nshow(Bk[side][1])))
         else:
             rep.violation('E17.S3-retraction', inst, 'F_%s * B_%s = %s, not the identity' % (side, side, nshow(fb)), where=root.where())
+    return bad
+
+
+# ------------------------------------------------------------------ S5: dimensions of the two transforms
+def _aff(p, q, s=1):
+    r = dict(p)
+    for k, c in q.items():
+        r[k] = r.get(k, 0) + s * c
+        if r[k] == 0:
+            del r[k]
+    return r
+
+
+def _ashow(p):
+    if not p:
+        return '0'
+    out = ''
+    for k, c in sorted(p.items(), key=lambda kv: (kv[0] == 1, str(kv[0]))):
+        t = str(abs(c)) if k == 1 else (('' if abs(c) == 1 else str(abs(c))) + k)
+        out += (' - ' if c < 0 else (' + ' if out else '')) + t
+    return out.strip()
+
+
+def check_dimensions(facts, rep, root, kinds):
+    """S5: on every returning path of from_partial_triangular that carries transforms, t_src maps R^n -> R^(n-r) and t_tgt
+    maps R^m -> R^(m-r), (m, n) = shape of the input and r the size of the eliminated block. The shapes of the matrix
+    expressions are computed as affine forms in m, n, r (blocks of divide4((k, l)); id, zero, the selector closures,
+    neg, the two triangular solves, stack / extend_cols), modulo the tests of r the path has passed (r == 0)."""
+    inst = 'Schur|t_src : n -> n - r and t_tgt : m -> m - r on every path'
+    M_, N_, R_ = {'m': 1}, {'n': 1}, {'r': 1}
+
+    def dim(t):
+        t = strip(t)
+        s = sk(t)
+        if t[0] == 'const' and isinstance(t[1], int):
+            return {1: t[1]} if t[1] else {}
+        if t == ('arg', 3):
+            return R_
+        if t[0] == 'field' and t[2] in ('0', '1') and strip(t[1])[0] == 'call' and strip(t[1])[1].split('::')[-1] == 'shape' and strip(strip(t[1])[2][0]) == ('arg', 2):
+            return M_ if t[2] == '0' else N_
+        if t[0] == 'call' and t[1].split('::')[-1] in ('nrows', 'ncols') and len(t[2]) == 1 and strip(t[2][0]) == ('arg', 2):
+            return M_ if t[1].endswith('nrows') else N_
+        if t[0] == 'field' and t[2] == '0' and t[1][0] == 'bin' and t[1][1] in ('SubWithOverflow', 'AddWithOverflow'):
+            return _aff(dim(t[1][2]), dim(t[1][3]), -1 if t[1][1].startswith('Sub') else 1)
+        if t[0] == 'bin' and t[1] in ('Sub', 'Add'):
+            return _aff(dim(t[2]), dim(t[3]), -1 if t[1] == 'Sub' else 1)
+        raise Bad('dimension ' + s[:60])
+
+    def shape(t, p):
+        t = strip(t)
+        s = sk(t)
+        if t[0] == 'post':
+            ev = [e for e in p.calls() if e.site == t[1]]
+            if ev and ev[0].name.split('::')[-1] == 'extend_cols' and len(ev[0].args) == 2:
+                a_, b_ = shape(t[2], p), shape(ev[0].args[1], p)
+                if a_[0] != b_[0]:
+                    raise Bad('extend_cols joins %s rows with %s rows' % (_ashow(a_[0]), _ashow(b_[0])))
+                return (a_[0], _aff(a_[1], b_[1]))
+            if ev and ev[0].name.split('::')[-1] == 'extend_rows' and len(ev[0].args) == 2:
+                a_, b_ = shape(t[2], p), shape(ev[0].args[1], p)
+                return (_aff(a_[0], b_[0]), a_[1])
+            raise Bad('matrix modified by ' + (ev[0].name.split('::')[-1] if ev else '?'))
+        if t[0] == 'index' and strip(t[1])[0] == 'call' and strip(t[1])[1].endswith('divide4') and t[2][0] == 'const':
+            c = strip(t[1])
+            if strip(c[2][0]) != ('arg', 2) or strip(c[2][1])[0] != 'tuple':
+                raise Bad('divide4 of ' + sk(c)[:60])
+            k, l = [dim(x) for x in strip(c[2][1])[1]]
+            i = t[2][1]
+            return (k if i < 2 else _aff(M_, k, -1), l if i % 2 == 0 else _aff(N_, l, -1))
+        if t[0] == 'call':
+            last = t[1].split('::')[-1]
+            if last == 'id' and len(t[2]) == 1:
+                k = dim(t[2][0])
+                return (k, k)
+            if last == 'zero' and len(t[2]) == 1 and strip(t[2][0])[0] == 'tuple':
+                a_, b_ = [dim(x) for x in strip(t[2][0])[1]]
+                return (a_, b_)
+            if last == 'neg' and len(t[2]) == 1:
+                return shape(t[2][0], p)
+            if last == 'solve_triangular' and len(t[2]) == 3:
+                return shape(t[2][2], p)
+            if last == 'solve_triangular_left' and len(t[2]) == 3:
+                return shape(t[2][2], p)
+            if last == 'stack' and len(t[2]) == 2:
+                a_, b_ = shape(t[2][0], p), shape(t[2][1], p)
+                if a_[1] != b_[1]:
+                    raise Bad('stack joins %s columns with %s columns' % (_ashow(a_[1]), _ashow(b_[1])))
+                return (_aff(a_[0], b_[0]), a_[1])
+            if t[1] in kinds and len(t[2]) == 2 and strip(t[2][1])[0] == 'tuple':
+                args = [dim(x) for x in strip(t[2][1])[1]]
+                kd = kinds[t[1]]
+                if kd == 'id' and len(args) == 1:
+                    return (args[0], args[0])
+                if kd == 'proj' and len(args) == 2:
+                    return (args[1], args[0])
+                if kd == 'incl' and len(args) == 2:
+                    return (args[0], args[1])
+        raise Bad('matrix expression ' + s[:70])
+
+    def trans_dims(t, p):
+        """(src_dim, tgt_dim) of a Trans value"""
+        t = strip(t)
+        if t[0] == 'call' and t[1].endswith('Trans::<R>::id') and len(t[2]) == 1:
+            k = dim(t[2][0])
+            return (k, k), None
+        if t[0] == 'call' and t[1].endswith('Trans::<R>::new') and len(t[2]) == 2:
+            f, b = shape(t[2][0], p), shape(t[2][1], p)
+            return (f[1], f[0]), (b[0], b[1])
+        raise Bad('transform ' + sk(t)[:60])
+    n = 0
+    problems = []
+    try:
+        for p in SymEx(root, max_paths=20000).run():
+            r = p.ret
+            if p.end != 'return' or r is None:
+                continue
+            flds = dict(zip(r[3], r[4])) if (r[0] == 'adt' and len(r) == 5) else None
+            if flds is None:
+                # fall back to the printed form
+                raise Bad('result of from_partial_triangular is not a struct literal')
+            zero_r = False
+            for c in p.branches():
+                cs = sk(c.term)
+                if cs in ('Eq(arg3, 0)', 'Eq(0, arg3)') and c.value != 0:
+                    zero_r = True
+                if cs in ('Ne(arg3, 0)', 'Ne(0, arg3)', 'Gt(arg3, 0)', 'Lt(0, arg3)') and c.value == 0:
+                    zero_r = True
+            for fld, (sd, td) in (('t_src', (N_, _aff(N_, R_, -1))), ('t_tgt', (M_, _aff(M_, R_, -1)))):
+                v = strip(flds.get(fld, ('none',)))
+                if v[0] == 'adt' and v[2] == 'None':
+                    continue
+                if not (v[0] == 'adt' and v[2] == 'Some' and len(v[4]) == 1):
+                    raise Bad('%s is %s' % (fld, sk(v)[:60]))
+                inner = v[4][0]
+                got, back = trans_dims(inner, p)
+                kill = (lambda a: {k: c for k, c in a.items() if k != 'r'}) if zero_r else (lambda a: a)
+                n += 1
+                if (kill(got[0]), kill(got[1])) != (kill(sd), kill(td)):
+                    problems.append('%s maps R^(%s) -> R^(%s)%s, expected R^(%s) -> R^(%s)' % (fld, _ashow(got[0]), _ashow(got[1]), ' on the path with r == 0' if zero_r else '', _ashow(sd), _ashow(td)))
+                elif back is not None and (kill(back[0]), kill(back[1])) != (kill(sd), kill(td)):
+                    problems.append('the backward map of %s has shape (%s) x (%s), expected (%s) x (%s)' % (fld, _ashow(back[0]), _ashow(back[1]), _ashow(sd), _ashow(td)))
+    except Bad as e:
+        rep.indet('E17.S5: shapes of the Schur transforms outside the recognised fragment: %s' % e)
+        return
+    if problems:
+        rep.violation('E17.S5-dimensions', inst, 'Schur::from_partial_triangular: ' + '; '.join(sorted(set(problems))) + ' - with (m, n) = shape of the input: the transforms cannot be composed with the matrix they belong to', where=root.where())
+    elif n < 2:
+        rep.indet('E17.S5: no returning path of from_partial_triangular carries both transforms')
+    else:
+        rep.ok('E17.S5-dimensions', inst, '%d transform(s) on the returning paths' % n)
